@@ -765,6 +765,16 @@ func (s *scanner) ReadStreamData(dict Dict) (stm *Stream, err error) {
 		}
 	}()
 
+	// A scanner which does not read from the file itself (for example one
+	// which reads the contents of an object stream) cannot hold stream
+	// objects.  Refuse early: resolving an indirect /Length first could lead
+	// back to the very object being read and recurse without bound.
+	if s.fileReader == nil {
+		return nil, &MalformedFileError{
+			Err: errors.New("cannot read stream data"),
+		}
+	}
+
 	// /Length is required, but real-world PDFs (and fuzz mutations) omit it,
 	// give an indirect length that cannot be resolved, or give a plainly wrong
 	// value.  Resolve a candidate here; a missing or unusable one is treated as
